@@ -680,8 +680,11 @@ func (x *wireExec) run(sc *WireScenario) {
 		x.mu.Lock()
 		if x.ser != nil && in.Op != "hs" && in.Op != "chs" {
 			ev.Frames = append(x.parsed, x.frames()...)
-			x.parsed = nil
+		} else if x.ser != nil && in.Op == "chs" {
+			_ = x.frames() // (the markers of the connecting step)
 		}
+		// what was parsed belongs to this step only: a marker of an earlier step must never end a later one
+		x.parsed = nil
 		ev.Delivered = x.delivered
 		x.delivered = nil
 		if x.real {
